@@ -497,6 +497,19 @@ class Gen:
             env.try_depth = 0      # a throw directly under except__ would be taken by it; the statements do not fix that
             a = self.block(env, d, ty, ty)
             h = self.block(env, d, ty, ty, pre={"_exception": "exc"}, named_ok=False)
+            if self.o.natural_faults and self.n_faults < self.max_faults and self.r.random() < 0.35:
+                # an error raised by an exit behaviour on the LAST iteration, as right-hand side of an assignment: nothing after the
+                # faulting construct may run, not even the one instruction that would store its value
+                self.n_faults += 1
+                self.features.add("natural_fault")
+                self.features.add("natural_fault_rhs")
+                g = "%sq%d" % (self.o.gprefix, self.r.randint(10 ** 6, 10 ** 7))    # (globals outlive a run of the VM: never reuse a name)
+                op = self.r.choice(["count", "findIf", "selectc"])
+                arr = ["arr", [["num", self.r.randint(0, 9)]]]
+                body = [["e", ["num", self.r.randint(0, 5)]]]
+                rhs = ["count", body, arr] if op == "count" else [op, arr, body]
+                a = a[:-1] + [["gset", g, rhs]] + a[-1:]
+                h.insert(0, ["t", self.marker(), ["isNils", g]])
             h.insert(0, ["t", self.marker(), ["exc_has", 101]])   # the single planted fault of a program always carries tag 101
             env.try_depth = saved_try
             return ["except", a, h]
